@@ -37,8 +37,8 @@ def release_sites(ctx):
             roles.discard(None)
             if not roles:
                 continue
-            kind, detail = classify_release_guard(ctx, b, bb)
-            out.append({"body": b, "bb": bb, "t": t, "roles": roles, "kind": kind, "detail": detail})
+            kind, detail, params = classify_release_guard(ctx, b, bb, with_params=True)
+            out.append({"body": b, "bb": bb, "t": t, "roles": roles, "kind": kind, "detail": detail, "params": params})
         # release by assignment: `holder = None`
         for bb, si, s_ in b.stmts():
             if s_["k"] != "assign":
@@ -61,27 +61,38 @@ def release_sites(ctx):
             roles.discard(None)
             if not roles:
                 continue
-            kind, detail = classify_release_guard(ctx, b, bb)
-            out.append({"body": b, "bb": bb, "t": None, "roles": roles, "kind": kind, "detail": detail + " (assigned None)"})
+            kind, detail, params = classify_release_guard(ctx, b, bb, with_params=True)
+            out.append({"body": b, "bb": bb, "t": None, "roles": roles, "kind": kind, "detail": detail + " (assigned None)", "params": params})
+    lifted = []
+    for s_ in out:
+        if s_["kind"] in ("UNGUARDED", "OTHER") or s_.get("params"):
+            lifted.extend(lift_release_sites(ctx, s_))
+    out.extend(lifted)
     m._release_sites = out
     return out
 
 
-def classify_release_guard(ctx, b, bb):
-    """EMPTY / FINISHED / INTERRUPTED / FAILED / UNGUARDED / OTHER"""
+def classify_value_as_guard(ctx, b, e, taken_true):
+    """What does branching on value `e` (taken when true / false) mean for a
+    release?  -> (kind, detail) or None."""
     m, fl = ctx.model, ctx.model.flow
-    kinds = []
-    for sb, x, rel in guard_eq_zero(b, bb):
-        if rel != "eq0":
-            kinds.append(("OTHER", "guard `%s`" % rel))
-            continue
+    e = strip_refs(e)
+    if e.kind == "unop" and e[1] == "Not":
+        return classify_value_as_guard(ctx, b, e[2], not taken_true)
+    if e.kind == "binop" and e[1] in ("Eq", "Ne", "Le", "Gt"):
+        x = None
+        if is_const(e[3], 0):
+            x = e[2]
+        elif is_const(e[2], 0) and e[1] in ("Eq", "Ne"):
+            x = e[3]
+        if x is None:
+            return None
+        is_zero_branch = (e[1] in ("Eq", "Le") and taken_true) or (e[1] in ("Ne", "Gt") and not taken_true)
         xs = strip_refs(x)
-        # node_count directly, or a value carrying node_count possibly decremented
         srcs = sources_of_expr(ctx, b, xs, mode="taint")
         has_nc = any(s.kind == "alloc" and s[4] in NODE_COUNT_FNS for s in srcs)
         has_sub = any(s.kind == "op" and s[4] in ("Sub", "SubWithOverflow") for s in srcs)
         if has_nc and not has_sub:
-            # decrement through a pointer / lock guard to the same object
             ncs = {s for s in srcs if s.kind == "alloc" and s[4] in NODE_COUNT_FNS}
             for kind_, bb_, si_, st_ in [d for ds in get_defs(b).through.values() for d in ds]:
                 from analysis import expr_rvalue
@@ -90,41 +101,96 @@ def classify_release_guard(ctx, b, bb):
                     ps = fl.sources_local(b, st_["pl"]["l"], (), "taint")
                     if ncs & set(ps):
                         has_sub = True
-        if has_nc and has_sub:
-            kinds.append(("FINISHED", fmt_expr(xs, b)))
-        elif has_nc:
-            kinds.append(("EMPTY", fmt_expr(xs, b)))
-        else:
-            kinds.append(("OTHER", "== 0 test of %s" % fmt_expr(xs, b)))
+        if not has_nc:
+            return ("OTHER", "%s 0 test of %s" % ("==" if is_zero_branch else "!=", fmt_expr(xs, b)))
+        if not is_zero_branch:
+            return ("NONZERO", fmt_expr(xs, b))
+        return ("FINISHED" if has_sub else "EMPTY", fmt_expr(xs, b))
+    # a parameter of a crate-local helper: decided at the call sites
+    pe = e
+    if pe.kind == "arg":
+        return ("PARAM", pe[1] - 1, taken_true)
+    if pe.kind == "field" and (pe[1].kind == "env" or (pe[1].kind == "deref" and pe[1][1].kind == "env")) and \
+            b.kind == "coroutine" and b.coroutine_kind and "Fn" in b.coroutine_kind:
+        return ("PARAM", pe[2], taken_true)
+    # interrupted flag
     mapper = interrupt_mapper(ctx) if m.interruptible else None
+    if mapper is not None:
+        srcs = sources_of_expr(ctx, b, e)
+        if srcs and all(s.kind == "const" and len(s) > 3 and s[3] == mapper.id for s in srcs):
+            return ("INTERRUPTED" if taken_true else "OTHER", "interrupted flag (%s)" % ("true" if taken_true else "false"))
+    return None
+
+
+def classify_release_guard(ctx, b, bb, with_params=False):
+    """EMPTY / FINISHED / INTERRUPTED / FAILED / UNGUARDED / OTHER (+ PARAM guards for lifting)"""
+    m, fl = ctx.model, ctx.model.flow
+    kinds = []
+    params = []
     for sb, de, vals in cond_guards(b, bb):
         e = strip_refs(de)
-        if e.kind == "binop":
-            continue
         if e.kind == "discr":
-            # Err arm of the user future's result?
             inner = strip_refs(e[1])
             srcs = sources_of_expr(ctx, b, inner)
             if any(s.kind == "userfut" for s in srcs):
-                # which variant is taken
-                t = b.blocks[sb]["term"]
                 vs = [v for v in vals if v != "otherwise"]
                 kinds.append(("FAILED" if vs == ["1"] else "OTHER", "match on the user future's result, arm %s" % sorted(vals)))
             continue
-        # boolean flag
-        if mapper is not None:
-            srcs = sources_of_expr(ctx, b, e)
-            if srcs and all(s.kind == "const" and len(s) > 3 and s[3] == mapper.id for s in srcs):
-                taken_true = "otherwise" in vals and "0" not in vals
-                kinds.append(("INTERRUPTED" if taken_true else "OTHER", "interrupted flag (%s)" % ("true" if taken_true else "false")))
-    if not kinds:
-        return "UNGUARDED", ""
-    # innermost guard decides; prefer specific kinds
+        taken_true = "otherwise" in vals and "0" not in vals
+        taken_false = "0" in vals and "otherwise" not in vals
+        if not (taken_true or taken_false):
+            continue
+        r = classify_value_as_guard(ctx, b, e, taken_true)
+        if r is None:
+            continue
+        if r[0] == "PARAM":
+            params.append((r[1], r[2]))
+        elif r[0] != "NONZERO":
+            kinds.append(r)
+    res = None
     for k in ("FAILED", "INTERRUPTED", "FINISHED", "EMPTY"):
         for kk, d in kinds:
-            if kk == k:
-                return k, d
-    return kinds[0]
+            if kk == k and res is None:
+                res = (k, d)
+    if res is None:
+        res = kinds[0] if kinds else ("UNGUARDED", "")
+    if with_params:
+        return res[0], res[1], params
+    return res
+
+
+def lift_release_sites(ctx, site, depth=0):
+    """A release inside a crate-local helper that is unguarded there (or guarded
+    by one of the helper's parameters) is classified at the helper's call sites."""
+    m, fb, fl = ctx.model, ctx.fb, ctx.model.flow
+    b = site["body"]
+    out = []
+    if depth >= 3:
+        return out
+    fnid = b.id
+    if b.kind == "coroutine" and b.parent and b.coroutine_kind and "Fn" in b.coroutine_kind:
+        fnid = b.parent
+    elif b.kind != "fn":
+        return out
+    callers = [(cb, cbb, t) for (cb, cbb, t) in fl.call_sites().get(fnid, []) if not fb.is_test_body(cb)]
+    for cb, cbb, t in callers:
+        kind, detail = None, ""
+        # parameter guards of the helper, evaluated on the caller's argument
+        for (pi, taken_true) in site.get("params", []):
+            if pi < len(t["args"]):
+                r = classify_value_as_guard(ctx, cb, expr_operand(cb, t["args"][pi]), taken_true)
+                if r and r[0] not in ("PARAM", "NONZERO", "OTHER"):
+                    kind, detail = r[0], r[1]
+        k2, d2, params2 = classify_release_guard(ctx, cb, cbb, with_params=True)
+        if kind is None or (k2 in ("FAILED", "INTERRUPTED") and kind not in ("FAILED", "INTERRUPTED")):
+            if k2 != "UNGUARDED" or kind is None:
+                kind, detail = (k2, d2) if kind is None or k2 != "UNGUARDED" else (kind, detail)
+        ns = {"body": cb, "bb": cbb, "t": t, "roles": site["roles"], "kind": kind, "detail": (detail + " (via %s)" % short(fnid)).strip(),
+              "params": params2, "via": site}
+        out.append(ns)
+        if kind in ("UNGUARDED", "OTHER") or params2:
+            out.extend(lift_release_sites(ctx, ns, depth + 1))
+    return out
 
 
 def interrupted_release_needs_no_id(ctx, site):
@@ -150,6 +216,47 @@ def is_pre_scheduler_body(b):
     if b.kind == "fn":
         return True
     return b.kind == "coroutine" and b.coroutine_kind and "Fn" in b.coroutine_kind
+
+
+def empty_by_construction(ctx, entry, role="DONE"):
+    """The sender is only ever *kept* (wrapped into the Option / lock that the run
+    holds) when the graph is non-empty: every `Some(sender)` aggregate and every
+    `cond.then_some(sender)` with that sender's provenance, reachable from the
+    entry point, is guarded by node_count() != 0.  Returns (ok, detail)."""
+    m, fb, fl = ctx.model, ctx.fb, ctx.model.flow
+    wraps = []
+    for b in m.reach_bodies(entry["id"]):
+        for bb, si, s_ in b.stmts():
+            if s_["k"] == "assign" and s_["rv"]["k"] == "agg" and s_["rv"].get("variant") == "Some" and s_["rv"]["ops"]:
+                op = s_["rv"]["ops"][0]
+                if op["k"] == "const" or "mpsc::Sender" not in op["pl"]["ty"] and "bounded::Sender" not in op["pl"]["ty"]:
+                    continue
+                if op["pl"]["ty"].startswith("&"):
+                    continue
+                roles, other = m.roles_of_sources(fl.sources_operand(b, op), half=0)
+                if role in roles:
+                    guarded = False
+                    for sb, de, vals in cond_guards(b, bb):
+                        tt = "otherwise" in vals and "0" not in vals
+                        r = classify_value_as_guard(ctx, b, strip_refs(de), tt)
+                        if r and r[0] == "NONZERO":
+                            guarded = True
+                        r2 = classify_value_as_guard(ctx, b, strip_refs(de), not tt) if r is None else None
+                    wraps.append((b, bb, guarded))
+        for bb, t in b.calls():
+            p = callee_path(t) or ""
+            if p in ("std::primitive::bool::then_some", "core::bool::<impl bool>::then_some", "std::bool::<impl bool>::then_some") or p.endswith("bool>::then_some"):
+                if len(t["args"]) == 2 and t["args"][1]["k"] != "const" and "Sender" in t["args"][1]["pl"]["ty"]:
+                    roles, other = m.roles_of_sources(fl.sources_operand(b, t["args"][1]), half=0)
+                    if role in roles:
+                        r = classify_value_as_guard(ctx, b, expr_operand(b, t["args"][0]), True)
+                        wraps.append((b, bb, bool(r and r[0] == "NONZERO")))
+    if not wraps:
+        return False, "no construction site of the held sender found"
+    bad = [(b, bb) for b, bb, g in wraps if not g]
+    if bad:
+        return False, "the sender is kept unconditionally at %s" % [m.where(b, bb) for b, bb in bad][:2]
+    return True, "the sender is only kept when node_count() != 0 (%s)" % [m.where(b, bb) for b, bb, g in wraps][:2]
 
 
 def T1(ctx, rule="T1", kinds=None):
@@ -186,6 +293,8 @@ def T1(ctx, rule="T1", kinds=None):
                 s = cands[0]
                 ctx.ok(rule, "%s|%s" % (k, e["name"]), where,
                        "%s: the done-sender is released at %s (%s)" % (k, m.where(s["body"], s["bb"]), s["detail"]))
+            elif k == "EMPTY" and empty_by_construction(ctx, e, "DONE")[0]:
+                ctx.ok(rule, "%s|%s" % (k, e["name"]), where, "EMPTY: " + empty_by_construction(ctx, e, "DONE")[1])
             else:
                 what = {
                     "EMPTY": "no release of the done-sender guarded by `node_count() == 0` before the scheduler is polled: on an empty graph the queuer waits forever on a sender nobody drops",
@@ -211,12 +320,15 @@ def T1(ctx, rule="T1", kinds=None):
                 continue
             n += 1
             c = [s for s in mine if s["kind"] == k]
+            if not c and k == "EMPTY" and empty_by_construction(ctx, e, "READY")[0]:
+                ctx.ok(rule, "READY-%s|%s" % (k, e["name"]), where, "EMPTY: " + empty_by_construction(ctx, e, "READY")[1])
+                continue
             ctx.check(bool(c), rule, "READY-%s|%s" % (k, e["name"]), where,
                       "%s: the ready-sender is released at %s" % (k, m.where(c[0]["body"], c[0]["bb"]) if c else "-"),
                       "%s: the ready-sender is never released on this exit; the scheduler's ready stream never ends" % k)
     ctx.counts[rule] = n
-    if len(holders) < 2:
-        ctx.unverifiable(rule, "floor-ready-holders", "-", "expected the ready-sender to be held (and released) in the queuer and in the stream poll closure; found %d holder(s)" % len(holders))
+    if kinds is None and len(holders) < 1:
+        ctx.unverifiable(rule, "floor-ready-holders", "-", "no site releasing the ready-sender found")
     fams = {m.family(e) for e in m.entries}
     for f in ("stream", "fold", "for_each", "try_fold", "try_for_each"):
         if f not in fams:
@@ -304,19 +416,23 @@ def T2(ctx, rule="T2"):
 # T3 wake-up typestate
 
 def poll_closures(ctx):
-    """hand-written poll functions: closures passed to poll_fn (not from a
-    macro expansion) and manual Future::poll / Stream::poll_next impls."""
+    """hand-written poll functions: every production body (closure passed to
+    poll_fn, method called from one, manual Future/Stream impl) that polls a
+    channel receiver with the task context or drains it with try_recv."""
     m, fb, fl = ctx.model, ctx.fb, ctx.model.flow
     out = []
     for b in fb.prod_bodies():
-        for bb, t in b.calls():
-            if callee_path(t) in POLL_FN and not t["sp"].get("exp"):
-                cb = fl._closure_body_of_operand(b, t["args"][0])
-                if cb is not None:
-                    out.append((cb, "poll_fn@%s" % b.loc(bb)))
-        sig = fb.fns.get(b.id, {})
-        if sig.get("impl_trait") in ("futures::Future", "std::future::Future", "futures::Stream") and sig.get("name") in ("poll", "poll_next"):
-            out.append((b, "impl %s" % sig.get("impl_trait")))
+        if b.kind == "coroutine":
+            continue
+        hit = [callee_path(t) for bb, t in b.calls() if callee_path(t) in (
+            "tokio::sync::mpsc::Receiver::<T>::poll_recv", "tokio::sync::mpsc::UnboundedReceiver::<T>::poll_recv",
+            "tokio::sync::mpsc::Receiver::<T>::try_recv", "tokio::sync::mpsc::UnboundedReceiver::<T>::try_recv")]
+        if not hit:
+            continue
+        # must be a poll function: has a task-context parameter
+        has_cx = any("std::task::Context" in b.locals[i]["s"] for i in range(1, b.arg_count + 1))
+        if has_cx:
+            out.append((b, "polls %s" % sorted(set(x.split("::")[-1] for x in hit))))
     return out
 
 
@@ -326,11 +442,19 @@ def rx_key(body, op):
 
 
 def T3_body(ctx, body):
-    """Returns (receivers, problems) for one poll function body."""
+    """Wake-up typestate of one poll function.  Abstract state = set of
+    configurations; a configuration maps every polled receiver to ONE status
+    (U unpolled, X polled-unexamined, P Pending = waker registered, N closed,
+    S Ready(Some) consumed = no waker, R Ready(unknown), W woken) and every
+    local in the backward slice of the return place to the kind of Poll value it
+    holds (Ready, Pending, ('rx', k) = result of polling receiver k, ?).
+    Keeping configurations apart preserves the correlation between "which
+    receiver was consumed" and "what is returned" across joins.
+    Returns (receivers, problems)."""
     fl = ctx.model.flow
     defs = get_defs(body)
     pollres = {}      # local -> (rxkey, call bb)
-    noctx = {}        # receivers consumed without the task context (try_recv): never register a waker
+    noctx = {}
     for bb, t in body.calls():
         if callee_path(t) in ("tokio::sync::mpsc::Receiver::<T>::poll_recv", "tokio::sync::mpsc::UnboundedReceiver::<T>::poll_recv"):
             pollres[t["dest"]["l"]] = (rx_key(body, t["args"][0]), bb)
@@ -339,45 +463,51 @@ def T3_body(ctx, body):
             noctx[rx_key(body, t["args"][0])] = bb
     if not pollres and not noctx:
         return {}, []
+    MAPS = ("std::task::Poll::<T>::map", "std::option::Option::<T>::map", "std::option::Option::<T>::inspect")
+    # backward slice of the return place
+    slice_ = set()
+    stack = [0]
+    while stack:
+        l = stack.pop()
+        if l in slice_:
+            continue
+        slice_.add(l)
+        for kind, bb, si, x in defs.of(l):
+            if kind == "stmt" and x["rv"]["k"] in ("use", "ref", "copy_for_deref"):
+                pl = x["rv"]["pl"] if x["rv"]["k"] != "use" else x["rv"]["op"].get("pl")
+                if pl:
+                    stack.append(pl["l"])
+            elif kind == "call" and callee_path(x) in MAPS and x["args"][0]["k"] != "const":
+                stack.append(x["args"][0]["pl"]["l"])
 
     def root_pollres(local, depth=0):
-        """follow refs / Poll::map to the poll result local"""
         if local in pollres:
             return local, True
         if depth > 6:
             return None, False
-        d = defs.unique_full(local)
-        if not d:
-            # multi-def local (e.g. `poll` assigned in two arms): any def from a pollres?
-            cands = set()
-            for kind, bb, si, x in defs.of(local):
-                if kind == "call" and callee_path(x) == "std::task::Poll::<T>::map":
-                    a = x["args"][0]
-                    if a["k"] != "const":
-                        r, _ = root_pollres(a["pl"]["l"], depth + 1)
-                        if r is not None:
-                            cands.add(r)
-                elif kind == "stmt" and x["rv"]["k"] == "use" and x["rv"]["op"]["k"] != "const":
-                    r, _ = root_pollres(x["rv"]["op"]["pl"]["l"], depth + 1)
+        ds = defs.of(local)
+        cands = set()
+        exact = True
+        for kind, bb, si, x in ds:
+            if kind == "call" and callee_path(x) in MAPS:
+                a = x["args"][0]
+                if a["k"] != "const":
+                    r, _ = root_pollres(a["pl"]["l"], depth + 1)
                     if r is not None:
                         cands.add(r)
-            if len(cands) == 1:
-                return list(cands)[0], False      # only Poll-level, and only on some paths
-            return None, False
-        kind, bb, si, x = d
-        if kind == "stmt" and x["rv"]["k"] in ("ref", "use", "copy_for_deref"):
-            pl = x["rv"]["pl"] if x["rv"]["k"] != "use" else x["rv"]["op"].get("pl")
-            if pl and not strip_proj(pl["p"]):
-                return root_pollres(pl["l"], depth + 1)
-        if kind == "call" and callee_path(x) == "std::task::Poll::<T>::map":
-            a = x["args"][0]
-            if a["k"] != "const":
-                r, exact = root_pollres(a["pl"]["l"], depth + 1)
-                return r, False
+                        exact = False
+            elif kind == "stmt" and x["rv"]["k"] in ("use", "ref", "copy_for_deref"):
+                pl = x["rv"]["pl"] if x["rv"]["k"] != "use" else x["rv"]["op"].get("pl")
+                if pl and not strip_proj(pl["p"]):
+                    r, ex = root_pollres(pl["l"], depth + 1)
+                    if r is not None:
+                        cands.add(r)
+                        exact = exact and ex
+        if len(cands) == 1:
+            return list(cands)[0], exact and len(ds) == 1
         return None, False
 
     def switch_info(sb):
-        """(rxkey, level, exact) for a switch on a discriminant of a poll result"""
         t = body.blocks[sb]["term"]
         if t["k"] != "switch" or t["discr"]["k"] == "const":
             return None
@@ -395,120 +525,143 @@ def T3_body(ctx, body):
             return (pollres[r][0], "option", exact)
         return None
 
-    rxs = sorted({k for k, _ in pollres.values()} | set(noctx))
-    init = {k: frozenset(["U"]) for k in sorted({k for k, _ in pollres.values()})}
+    rxs = sorted({k for k, _ in pollres.values()})
+    sl = sorted(slice_)
+
+    def mk(rxst, vals):
+        return (tuple(sorted(rxst.items())), tuple(sorted(vals.items())))
+
+    init = frozenset([mk({k: "U" for k in rxs}, {l: "?" for l in sl})])
     state_in = {0: init}
     work = [0]
-    nblocks = len(body.blocks)
-    ret_states = []
+    ret_cfgs = []
     it = 0
-    while work and it < 20000:
+    while work and it < 40000:
         it += 1
         bb = work.pop()
-        st = dict(state_in[bb])
-        t = body.blocks[bb]["term"]
-        if t["k"] == "call":
-            p = callee_path(t)
-            if t["dest"]["l"] in pollres and pollres[t["dest"]["l"]][1] == bb:
-                st[pollres[t["dest"]["l"]][0]] = frozenset(["X"])
-            elif p in WAKE_FNS:
-                st = {k: frozenset("W" if x in ("S", "R", "X") else x for x in v) for k, v in st.items()}
-        if t["k"] == "return":
-            ret_states.append((bb, st))
-            continue
-        succs = []
-        if t["k"] == "switch":
-            info = switch_info(bb)
-            listed = [v for v, _ in t["targets"]]
-            for v, tb in t["targets"] + [["otherwise", t["otherwise"]]]:
-                st2 = dict(st)
-                if info:
-                    key, level, exact = info
-                    if level == "poll":
-                        if v == "0":
-                            new = "R"
-                        elif v == "1":
-                            new = "P"
-                        else:
-                            new = "P" if listed == ["0"] else ("R" if listed == ["1"] else None)
-                        if new == "R":
-                            # keep finer knowledge if already refined
-                            cur = st2[key]
-                            st2[key] = frozenset(x for x in cur if x in ("S", "N")) or frozenset(["R"])
-                        elif new == "P":
-                            st2[key] = frozenset(["P"])
-                    elif level == "option" and exact:
-                        if v == "1":
-                            new = "S"
-                        elif v == "0":
-                            new = "N"
-                        else:
-                            new = "N" if listed == ["1"] else ("S" if listed == ["0"] else None)
-                        if new:
-                            st2[key] = frozenset([new])
-                succs.append((tb, st2))
-        else:
-            for s in body.succs(bb):
-                succs.append((s, st))
-        for s, st2 in succs:
-            old = state_in.get(s)
-            if old is None:
-                state_in[s] = st2
-                work.append(s)
-            else:
-                merged = {k: old[k] | st2[k] for k in old}
-                if merged != old:
-                    state_in[s] = merged
-                    work.append(s)
-    # which receivers' poll results are (part of) the returned value
-    returned = set()
-    seen = set()
-    stack = [0]
-    may_pending = False
-    while stack:
-        l = stack.pop()
-        if l in seen:
-            continue
-        seen.add(l)
-        if l in pollres:
-            returned.add(pollres[l][0])
-            may_pending = True
-            continue
-        ds = defs.of(l)
-        if not ds:
-            may_pending = True
-        for kind, bb, si, x in ds:
-            if kind == "stmt" and x["rv"]["k"] in ("use", "ref", "copy_for_deref"):
-                pl = x["rv"]["pl"] if x["rv"]["k"] != "use" else x["rv"]["op"].get("pl")
-                if pl:
-                    stack.append(pl["l"])
+        cfgs = state_in[bb]
+        blk = body.blocks[bb]
+        out_cfgs = set()
+        for cfg in cfgs:
+            rxst = dict(cfg[0])
+            vals = dict(cfg[1])
+            for s_ in blk["stmts"]:
+                if s_["k"] != "assign" or s_["pl"]["p"] or s_["pl"]["l"] not in slice_:
+                    continue
+                rv = s_["rv"]
+                l = s_["pl"]["l"]
+                if rv["k"] == "agg" and (rv.get("def") or "").endswith("task::Poll"):
+                    vals[l] = "Ready" if rv.get("variant") == "Ready" else "Pending"
+                elif rv["k"] in ("use",) and rv["op"]["k"] != "const" and not rv["op"]["pl"]["p"] and rv["op"]["pl"]["l"] in vals:
+                    vals[l] = vals[rv["op"]["pl"]["l"]]
+                elif rv["k"] in ("use",) and rv["op"]["k"] != "const" and rv["op"]["pl"]["l"] in pollres and not rv["op"]["pl"]["p"]:
+                    vals[l] = ("rx", pollres[rv["op"]["pl"]["l"]][0])
                 else:
-                    may_pending = True
-            elif kind == "stmt" and x["rv"]["k"] == "agg" and x["rv"].get("def", "").endswith("task::Poll"):
-                if x["rv"].get("variant") != "Ready":
-                    may_pending = True
-            elif kind == "call" and callee_path(x) in ("std::task::Poll::<T>::map", "std::option::Option::<T>::map",
-                                                       "std::option::Option::<T>::inspect"):
-                a = x["args"][0]
-                if a["k"] != "const":
-                    stack.append(a["pl"]["l"])
-            else:
-                may_pending = True
-    problems = []
-    polled_keys = {k for k, _ in pollres.values()}
-    for k, cbb in noctx.items():
-        if k not in polled_keys and may_pending:
-            problems.append((cbb, k, ["consumed with try_recv only: no waker is ever registered for this receiver"]))
-    for bb, st in ret_states:
-        for k, v in st.items():
-            if k in returned and not (v & {"S"}):
+                    vals[l] = "?"
+            t = blk["term"]
+            if t["k"] == "call":
+                p = callee_path(t)
+                dl = t["dest"]["l"]
+                if dl in pollres and pollres[dl][1] == bb:
+                    rxst[pollres[dl][0]] = "X"
+                    if dl in slice_:
+                        vals[dl] = ("rx", pollres[dl][0])
+                elif p in WAKE_FNS:
+                    rxst = {k: ("W" if v in ("S", "R", "X") else v) for k, v in rxst.items()}
+                elif dl in slice_ and not t["dest"]["p"]:
+                    if p in MAPS and t["args"][0]["k"] != "const":
+                        al = t["args"][0]["pl"]["l"]
+                        vals[dl] = vals.get(al, ("rx", pollres[al][0]) if al in pollres else "?")
+                    else:
+                        vals[dl] = "?"
+            if t["k"] == "return":
+                ret_cfgs.append((bb, rxst, vals.get(0, "?")))
                 continue
-            bad = v & {"S", "R"}
-            if k not in returned:
-                bad = v & {"S", "R", "X"}
-            if bad and may_pending:
-                problems.append((bb, k, sorted(v)))
-    return {k: sorted(returned) for k in rxs}, problems
+            if t["k"] == "switch":
+                info = switch_info(bb)
+                listed = [v for v, _ in t["targets"]]
+                for v, tb in t["targets"] + [["otherwise", t["otherwise"]]]:
+                    r2 = dict(rxst)
+                    feasible = True
+                    if info:
+                        key, level, exact = info
+                        cur = r2[key]
+                        if level == "poll":
+                            if v == "0":
+                                new = "R"
+                            elif v == "1":
+                                new = "P"
+                            else:
+                                new = "P" if listed == ["0"] else ("R" if listed == ["1"] else None)
+                            if new == "R":
+                                if cur == "P":
+                                    feasible = False
+                                elif cur not in ("S", "N"):
+                                    r2[key] = "R"
+                            elif new == "P":
+                                if cur in ("S", "N", "R"):
+                                    feasible = False
+                                else:
+                                    r2[key] = "P"
+                        elif level == "option" and exact:
+                            if v == "1":
+                                new = "S"
+                            elif v == "0":
+                                new = "N"
+                            else:
+                                new = "N" if listed == ["1"] else ("S" if listed == ["0"] else None)
+                            if new:
+                                if cur in ("S", "N") and cur != new:
+                                    feasible = False
+                                else:
+                                    r2[key] = new
+                    if feasible:
+                        out_cfgs.add((tb, mk(r2, vals)))
+            else:
+                for s2 in body.succs(bb):
+                    out_cfgs.add((s2, mk(rxst, vals)))
+        by_succ = {}
+        for s2, c in out_cfgs:
+            by_succ.setdefault(s2, set()).add(c)
+        for s2, cs in by_succ.items():
+            old = state_in.get(s2, frozenset())
+            new = old | cs
+            if len(new) > 400:
+                return {k: [] for k in rxs}, [(s2, "*", ["state explosion: unverifiable"])]
+            if new != old:
+                state_in[s2] = frozenset(new)
+                work.append(s2)
+    problems = []
+    returned_keys = set()
+    for bb, rxst, ret in ret_cfgs:
+        if isinstance(ret, tuple):
+            returned_keys.add(ret[1])
+        if ret == "Ready":
+            continue
+        if isinstance(ret, tuple):
+            k0 = ret[1]
+            if rxst.get(k0) in ("S", "R", "N"):
+                continue          # returns Ready(..)
+            skip = {k0}
+        else:
+            skip = set()
+        for k, v in rxst.items():
+            if k in skip:
+                continue
+            if v in ("S", "R") or (v == "X"):
+                problems.append((bb, k, [v, "return value: %s" % (ret,)]))
+        for k, cbb in noctx.items():
+            if k not in rxst:
+                problems.append((cbb, k, ["consumed with try_recv only: no waker is ever registered for this receiver"]))
+    # de-duplicate
+    seen = set()
+    uniq = []
+    for pb in problems:
+        key = (pb[0], pb[1], tuple(pb[2]))
+        if key not in seen:
+            seen.add(key)
+            uniq.append(pb)
+    return {k: sorted(returned_keys) for k in sorted(set(rxs) | set(noctx))}, uniq
 
 
 def T3(ctx, rule="T3", families=None, want_stream=None):
@@ -519,6 +672,8 @@ def T3(ctx, rule="T3", families=None, want_stream=None):
     for e in m.entries:
         if m.family(e) == "stream":
             stream_reach |= m.reach(e["id"])
+    # closures handed to poll_fn reach the method that does the polling
+    
     other_reach = set()
     for e in m.entries:
         if m.family(e) != "stream":
@@ -570,6 +725,11 @@ def U1(ctx, rule="U1"):
             c = [s for s in sites if s["body"].id in reach and role in s["roles"] and s["kind"] == k]
             if k == "EMPTY":
                 c = [s for s in c if is_pre_scheduler_body(s["body"])]
+                if not c:
+                    ebc = [empty_by_construction(ctx, e, role) for e in stream_entries]
+                    if ebc and all(x[0] for x in ebc):
+                        ctx.ok(rule, "%s-%s" % (role, k), "-", "%s: %s" % (role, ebc[0][1]))
+                        continue
             ctx.check(bool(c), rule, "%s-%s" % (role, k), m.where(c[0]["body"], c[0]["bb"]) if c else "-",
                       "%s sender released when %s" % (role, "the graph is empty" if k == "EMPTY" else "the countdown reaches 0"),
                       "stream: %s sender is not released when %s" % (role, "the graph is empty" if k == "EMPTY" else "the countdown of yielded functions reaches 0"))
@@ -599,7 +759,16 @@ def U1(ctx, rule="U1"):
             bb = decs[0][0]
             # guarded by Ready(Some) of the value that is returned
             g_ok = False
-            for sb, vals in guards_of(cb, bb):
+            glist = list(guards_of(cb, bb))
+            # a `matches!(..)`-style boolean: look at the guards of the block that sets it to true
+            for sb, vals in list(glist):
+                de = strip_refs(switch_expr(cb, sb))
+                if de.kind == "local" and "otherwise" in vals and "0" not in vals:
+                    for kind_, dbb, si_, x_ in get_defs(cb).of(de[1]):
+                        if kind_ == "stmt" and x_["rv"]["k"] == "use" and x_["rv"]["op"]["k"] == "const" and \
+                                str(x_["rv"]["op"].get("bits", x_["rv"]["op"]["val"])) in ("1", "true"):
+                            glist.extend(guards_of(cb, dbb))
+            for sb, vals in glist:
                 de = switch_expr(cb, sb)
                 if de.kind == "discr":
                     inner = strip_refs(de[1])
@@ -669,8 +838,12 @@ def T4(ctx, rule="T4"):
                       "the filter behind the interruptible wrapper passes every item (including Interrupted(None)) on to the scheduler",
                       "an interruption notice can be filtered away before the scheduler sees it: %s" % why)
     ctx.counts[rule] = n
-    if n < 1:
-        ctx.unverifiable(rule, "floor", "-", "expected a filter_map behind interruptible_with in the tracking function")
+    wraps = sum(1 for b in fb.prod_bodies() for bb, t in b.calls()
+                if callee_path(t) == "interruptible::InterruptibleStreamExt::interruptible_with")
+    if wraps < 1:
+        ctx.unverifiable(rule, "floor", "-", "no interruptible_with call found")
+    elif n == 0:
+        ctx.ok(rule, "no-filter", "-", "no filtering adaptor stands between interruptible_with (%d call sites) and the scheduler" % wraps)
 
 
 def A1(ctx, rule="A1"):
